@@ -421,6 +421,10 @@ class FromArgs(Generic[T]):
         return bool(self._i_to_arg)
 
     def to_tuple(self) -> Tuple[T, ...]:
+        # The indices already emitted as args must be exactly the positions in
+        # the tuple, so overrides may not leave any gaps.
+        if sorted(self._i_to_arg) != list(range(len(self._i_to_arg))):
+            raise ValueError(f"Index overrides leave gaps: {sorted(self._i_to_arg)}")
         return tuple(v for _, v, in sorted(self._i_to_arg.items()))
 
     def add(self, arg: T, index_override: Optional[int]) -> int:
